@@ -237,6 +237,10 @@ class HierDictDocument(DictDocument):
                     else:
                         retval = inst
 
+                elif isinstance(inst, six.binary_type):
+                    # what this very protocol writes (MessagePack: text as bin)
+                    retval = self.from_bytes(cls, inst)
+
                 else:
                     retval = self.from_serstr(cls, inst)
 
